@@ -89,8 +89,10 @@ def dispatch(repo: Repo, rep: Report) -> None:
             cw = ClassWorld([mod])
             log: List[Any] = []
             for side in ("drandom", "pyrandom"):
-                for f in ("randint", "choice", "shuffle", "random", "seed"):
-                    cw.genv[f"{side}.{f}"] = (lambda side, f: lambda *a: (log.append((side, f, a)), Tag(f"result-of-{side}.{f}"))[1])(side, f)
+                # the two generator modules as objects, so that `module.f(...)` and `pick_module().f(...)` both resolve
+                cw.genv[side] = Obj(["module"], name=side, **{
+                    f: (lambda side, f: lambda *a: (log.append((side, f, a)), Tag(f"result-of-{side}.{f}"))[1])(side, f)
+                    for f in ("randint", "choice", "shuffle", "random", "seed")})
             cw.genv["_use_deterministic_prng"] = flag
             try:
                 r = cw.call(name, *args)
@@ -108,7 +110,7 @@ def dispatch(repo: Repo, rep: Report) -> None:
     try:
         cw = ClassWorld([mod])
         log = []
-        cw.genv["drandom.seed"] = lambda s: log.append(s)
+        cw.genv["drandom"] = Obj(["module"], name="drandom", seed=lambda s_: log.append(s_))
         cw.call("use_deterministic_prng", True, 42)
         on = cw.genv.get("_use_deterministic_prng")
         # the function assigns a global: evaluated through its own environment copy, so read the flag through the getter
